@@ -70,6 +70,9 @@ func isRunningMaxPhi(q *ssa.Phi, cand VMatch) (ssa.Value, bool) {
 }
 
 func runC19(p *Prog, r *Report) {
+	if want("C19.16") {
+		ruleLegacyNameFallback(p, r, "C19.16")
+	}
 	if want("C19.15") {
 		// the rebuild keeps every entry the scan counted
 		ruleValidKeyAgreesWithParse(p, r, "C19.15")
